@@ -506,7 +506,7 @@ def correspondence(run):
     run.assumptions.append("dedup_batch obtained by: " + _dedup_cache["how"])
 
     # (a) encode_games
-    cs = core.Cases(ID, "encode_games", HEADER, CT_ENC, "chk_enc", show="view_enc", shard=10)
+    cs = core.Cases(ID, "encode_games", HEADER, CT_ENC, "chk_enc", show="view_enc", shard=19 if run.quick else 40)
     items, dist = [], {}
     for _ in range(n_enc):
         logs = _gen_logs(rng, run.quick)
